@@ -650,6 +650,11 @@ func (sa *Application) AddAllocationAsk(ask *Allocation) error {
 	if ask.IsAllocated() || resources.IsZero(ask.GetAllocatedResource()) {
 		return fmt.Errorf("invalid ask added to app %s: %v", sa.ApplicationID, ask)
 	}
+	// a terminated application has left (or is about to leave) its queue and no longer accepts asks
+	if sa.queue == nil || sa.stateMachine.Is(Completed.String()) || sa.stateMachine.Is(Failed.String()) ||
+		sa.stateMachine.Is(Expired.String()) || sa.stateMachine.Is(Rejected.String()) {
+		return fmt.Errorf("ask %s added to terminated app %s, state %s", ask.GetAllocationKey(), sa.ApplicationID, sa.stateMachine.Current())
+	}
 	if ask.createTime.Before(sa.submissionTime) {
 		sa.submissionTime = ask.createTime
 	}
@@ -1037,7 +1042,8 @@ func (sa *Application) canReplace(request *Allocation) bool {
 func (sa *Application) tryAllocate(headRoom *resources.Resource, allowPreemption bool, preemptionDelay time.Duration, preemptAttemptsRemaining *int, nodeIterator func() NodeIterator, fullNodeIterator func() NodeIterator, getNodeFn func(string) *Node) *AllocationResult {
 	sa.Lock()
 	defer sa.Unlock()
-	if sa.sortedRequests == nil {
+	// an application that has left its queue (terminated while this cycle was on its way) has nothing to schedule
+	if sa.sortedRequests == nil || sa.queue == nil {
 		return nil
 	}
 	// calculate the users' headroom, includes group check which requires the applicationID
